@@ -152,6 +152,36 @@ theorem go_eq (s : State) (k : Key) (p : Nat) :
   rw [← decideX_eq_exec, decideX_none]
   split <;> rfl
 
+/-! ### `keyOwnedByRunningPod` only asks, `resyncAct` only releases / reserves -/
+
+/-- the release decision of the closure after the provider unassign, in terms of `exec ∘ codeAction` -/
+theorem resyncAct_eq (s1 : State) (ip : IP) (k : Key) (r : Rec) :
+    resyncAct s1 ip k r =
+      if s1.provOn && r.node ≠ "" then
+        if !(provUnassign s1 r.node ip).2 then (provUnassign s1 r.node ip).1
+        else (exec (reserve (provUnassign s1 r.node ip).1 k k {}).1 k
+          (codeAction (dinOf CRs.none (reserve (provUnassign s1 r.node ip).1 k k {}).1 k r.policy))).1
+      else (exec s1 k (codeAction (dinOf CRs.none s1 k r.policy))).1 := by
+  unfold resyncAct
+  split
+  · split
+    · rfl
+    · rw [← go_eq]
+  · rw [← go_eq]
+
+theorem resyncAct_shr (s1 : State) (ip : IP) (k : Key) (r : Rec) (h : Coherent s1) :
+    Coherent (resyncAct s1 ip k r) ∧ Shr s1 (resyncAct s1 ip k r) := by
+  rw [resyncAct_eq]
+  split
+  · have uq := provUnassign_quiet s1 r.node ip
+    have hc2 := uq.coherent h
+    split
+    · exact ⟨hc2, Shr.of_quiet uq⟩
+    · have hc3 := reserve_coherent _ k k {} hc2
+      have s3 : Shr (provUnassign s1 r.node ip).1 (reserve (provUnassign s1 r.node ip).1 k k {}).1 := exec_shr _ k .reserveOwn
+      exact ⟨exec_coherent _ _ _ hc3, ((Shr.of_quiet uq).trans s3).trans (exec_shr _ _ _)⟩
+  · exact ⟨exec_coherent _ _ _ h, exec_shr _ _ _⟩
+
 /-- one checklist entry: coherent tables stay coherent, and the step has the shape `Shr` - for every fault plan -/
 theorem resyncOne_shr (s : State) (ip : IP) (r0 : Rec) (h : Coherent s) :
     Coherent (resyncOne Facts.good s ip r0) ∧ Shr s (resyncOne Facts.good s ip r0) := by
@@ -164,23 +194,14 @@ theorem resyncOne_shr (s : State) (ip : IP) (r0 : Rec) (h : Coherent s) :
     · exact ⟨h, Shr.refl s⟩
     · have pq := (podRunning_quiet Facts.good s r0.key.pod r0.key.ns r.uid).1
       have hc1 := pq.coherent h
-      try dsimp only
       split
       · exact ⟨hc1, Shr.of_quiet pq⟩
-      · split
-        · have uq := provUnassign_quiet (podRunning Facts.good s r0.key.pod r0.key.ns r.uid).1 r.node ip
-          have hc2 := uq.coherent hc1
-          split
-          · exact ⟨hc2, (Shr.of_quiet pq).trans (Shr.of_quiet uq)⟩
-          · rw [go_eq]
-            have hc3 := reserve_coherent _ r0.key r0.key {} hc2
-            have s3 : Shr (provUnassign (podRunning Facts.good s r0.key.pod r0.key.ns r.uid).1 r.node ip).1
-                (reserve (provUnassign (podRunning Facts.good s r0.key.pod r0.key.ns r.uid).1 r.node ip).1 r0.key r0.key {}).1 :=
-              exec_shr _ r0.key .reserveOwn
-            exact ⟨exec_coherent _ _ _ hc3,
-              (((Shr.of_quiet pq).trans (Shr.of_quiet uq)).trans s3).trans (exec_shr _ _ _)⟩
-        · rw [go_eq]
-          exact ⟨exec_coherent _ _ _ hc1, (Shr.of_quiet pq).trans (exec_shr _ _ _)⟩
+      · have kq := (keyOwned_quiet Facts.good (podRunning Facts.good s r0.key.pod r0.key.ns r.uid).1 r0.key r.uid).1
+        have hc2 := kq.coherent hc1
+        split
+        · exact ⟨hc2, (Shr.of_quiet pq).trans (Shr.of_quiet kq)⟩
+        · have ra := resyncAct_shr _ ip r0.key r hc2
+          exact ⟨ra.1, ((Shr.of_quiet pq).trans (Shr.of_quiet kq)).trans ra.2⟩
 
 theorem resyncLoop_shr (snap : Tbl IP Rec) : ∀ (order : List IP) (s : State), Coherent s →
     Coherent (resyncLoop Facts.good snap s order) ∧ Shr s (resyncLoop Facts.good snap s order) := by
@@ -245,6 +266,40 @@ theorem podRunning_gone (s : State) (k : Key) (uid : Uid) (hv : s.vPods = s.pods
     have hapi : s.api.2 = false := api_ok_of_spent (Or.inl hf)
     simp only [hapi, Bool.false_eq_true, if_false]
     exact hm
+
+theorem podGone_of_quiet {s s' : State} (q : QuietStep s s') (k : Key) (h : podGone s k) : podGone s' k := by
+  unfold podGone at h ⊢
+  rw [q.frame.pods]; exact h
+
+/-- nobody runs under the key of a vanished pod, whatever uid the records carry -/
+theorem keyOwnedLoop_gone (k : Key) (uid : Nat) : ∀ (l : List IP) (s : State), s.vPods = s.pods → s.fault = 0 → podGone s k →
+    (keyOwnedLoop Facts.good k uid l s).2 = false := by
+  intro l
+  induction l with
+  | nil => intro s _ _ _; rfl
+  | cons ip t ih =>
+    intro s hv hf hg
+    unfold keyOwnedLoop
+    split
+    · exact ih s hv hf hg
+    · rename_i r _
+      split
+      · exact ih s hv hf hg
+      · split
+        · exact ih s hv hf hg
+        · have hrun := podRunning_gone s k r.uid hv hf hg
+          have pq := (podRunning_quiet Facts.good s k.pod k.ns r.uid).1
+          rw [hrun]
+          simp only [Bool.false_eq_true, if_false]
+          exact ih _ (by rw [pq.frame.vPods, pq.frame.pods]; exact hv) (by rw [pq.frame.fault]; exact hf)
+            (podGone_of_quiet pq k hg)
+
+theorem keyOwned_gone (s : State) (k : Key) (uid : Nat) (hv : s.vPods = s.pods) (hf : s.fault = 0) (hg : podGone s k) :
+    (keyOwnedByRunningPod Facts.good s k uid).2 = false := by
+  unfold keyOwnedByRunningPod
+  split
+  · exact keyOwnedLoop_gone k uid _ s hv hf hg
+  · rfl
 
 theorem provUnassign_ok (s : State) (node : String) (ip : IP) (hp : s.pfault = 0) : (provUnassign s node ip).2 = true := by
   unfold provUnassign
@@ -384,34 +439,42 @@ theorem resyncOne_gone (t : State) (ip : IP) (r0 : Rec) (hc : Coherent t) (hf : 
       have hrun := podRunning_gone t r0.key r.uid hv hf hg
       have hc1 := pq.coherent hc
       have hf1 : (podRunning Facts.good t r0.key.pod r0.key.ns r.uid).1.fault = 0 := by rw [pq.frame.fault]; exact hf
-      have hg1 : Tbl.get (podRunning Facts.good t r0.key.pod r0.key.ns r.uid).1.alloc ip = some r := by rw [pq.alloc]; exact hr
-      try dsimp only at h1
       rw [hrun] at h1
       simp only [Bool.false_eq_true, if_false] at h1
+      have kq := (keyOwned_quiet Facts.good (podRunning Facts.good t r0.key.pod r0.key.ns r.uid).1 r0.key r.uid).1
+      have hown := keyOwned_gone (podRunning Facts.good t r0.key.pod r0.key.ns r.uid).1 r0.key r.uid
+        (by rw [pq.frame.vPods, pq.frame.pods]; exact hv) hf1 (podGone_of_quiet pq _ hg)
+      rw [hown] at h1
+      simp only [Bool.false_eq_true, if_false] at h1
+      have q2 := pq.trans kq
+      have hc2 := kq.coherent hc1
+      have hf2 : (keyOwnedByRunningPod Facts.good (podRunning Facts.good t r0.key.pod r0.key.ns r.uid).1 r0.key r.uid).1.fault = 0 := by
+        rw [q2.frame.fault]; exact hf
+      have hg2 : Tbl.get (keyOwnedByRunningPod Facts.good (podRunning Facts.good t r0.key.pod r0.key.ns r.uid).1 r0.key r.uid).1.alloc ip = some r := by
+        rw [q2.alloc]; exact hr
+      rw [resyncAct_eq] at h1
       split at h1
-      · have uq := provUnassign_quiet (podRunning Facts.good t r0.key.pod r0.key.ns r.uid).1 r.node ip
-        have hok := provUnassign_ok (podRunning Facts.good t r0.key.pod r0.key.ns r.uid).1 r.node ip
-          (by rw [pq.frame.pfault]; exact hpf)
+      · have uq := provUnassign_quiet (keyOwnedByRunningPod Facts.good (podRunning Facts.good t r0.key.pod r0.key.ns r.uid).1 r0.key r.uid).1 r.node ip
+        have hok := provUnassign_ok (keyOwnedByRunningPod Facts.good (podRunning Facts.good t r0.key.pod r0.key.ns r.uid).1 r0.key r.uid).1 r.node ip
+          (by rw [q2.frame.pfault]; exact hpf)
         rw [hok] at h1
         simp only [Bool.not_true, Bool.false_eq_true, if_false] at h1
-        rw [go_eq] at h1
-        have hc2 := uq.coherent hc1
-        have rc := reserve_chg (provUnassign (podRunning Facts.good t r0.key.pod r0.key.ns r.uid).1 r.node ip).1 r0.key r0.key {}
-        have hg2 : Tbl.get (provUnassign (podRunning Facts.good t r0.key.pod r0.key.ns r.uid).1 r.node ip).1.alloc ip = some r := by
-          rw [uq.alloc]; exact hg1
-        obtain ⟨r3, g3⟩ := reserve_keeps _ r0.key r0.key {} ip r hg2
+        have hc3 := uq.coherent hc2
+        have rc := reserve_chg (provUnassign (keyOwnedByRunningPod Facts.good (podRunning Facts.good t r0.key.pod r0.key.ns r.uid).1 r0.key r.uid).1 r.node ip).1 r0.key r0.key {}
+        have hg3 : Tbl.get (provUnassign (keyOwnedByRunningPod Facts.good (podRunning Facts.good t r0.key.pod r0.key.ns r.uid).1 r0.key r.uid).1 r.node ip).1.alloc ip = some r := by
+          rw [uq.alloc]; exact hg2
+        obtain ⟨r3, g3⟩ := reserve_keeps _ r0.key r0.key {} ip r hg3
         obtain ⟨r', g', p', k'⟩ := reserve_recs _ r0.key r0.key {} ip r3 g3
-        rw [hg2] at g'; cases g'
+        rw [hg3] at g'; cases g'
         have k3 : r3.key = r0.key := by
           rcases k' with k' | ⟨_, k'⟩
           · rw [k']; exact hke'
           · exact k'
-        exact tail _ r.policy (reserve_coherent _ _ _ _ hc2)
-          (by rw [rc.frame.fault, uq.frame.fault]; exact hf1)
-          (by rw [rc.frame.vApps, uq.frame.vApps, pq.frame.vApps])
+        exact tail _ r.policy (reserve_coherent _ _ _ _ hc3)
+          (by rw [rc.frame.fault, uq.frame.fault]; exact hf2)
+          (by rw [rc.frame.vApps, uq.frame.vApps, q2.frame.vApps])
           ⟨r3, g3, k3, p'⟩ h1
-      · rw [go_eq] at h1
-        exact tail _ r.policy hc1 hf1 pq.frame.vApps ⟨r, hg1, hke', rfl⟩ h1
+      · exact tail _ r.policy hc2 hf2 q2.frame.vApps ⟨r, hg2, hke', rfl⟩ h1
 
 /-! ### the whole pass -/
 
